@@ -26,8 +26,23 @@ class KindTable:
         self.by_name = {}
         self.flags = {f: set() for f in KIND_FLAGS}
         self.cast_variant = {e: {} for e in CAST_ENUMS}   # enum -> {kind int -> variant name}
+        self.binop_of_kind = {}     # kind int -> BinOp variant name
+        self.unop_of_kind = {}
+        self.binops = {}            # variant -> (precedence, text)
+        self.unops = {}
+        rb = driver.call('binops')
+        for ent in rb[1:]:
+            vn, prec, hx = ent.split('/')
+            self.binops[vn] = (int(prec), bytes.fromhex(hx).decode())
         for i, ent in enumerate(r[1:]):
-            name, val, fl, casts = ent.split(':')
+            name, val, fl, casts, bino, uno = ent.split(':')
+            if bino != '-':
+                vn, prec, hx = bino.split('/')
+                self.binop_of_kind[i] = vn
+            if uno != '-':
+                vn, prec, hx = uno.split('/')
+                self.unop_of_kind[i] = vn
+                self.unops[vn] = (int(prec), bytes.fromhex(hx).decode())
             if name != names[i] or int(val) != i:
                 raise EncoderGap('SyntaxKind table mismatch at %d: source says %s, binary says %s' % (i, names[i], name))
             self.names.append(name)
@@ -230,6 +245,10 @@ def make_cast(m, node, T):
             # the variant is forced only if some code inspects it
             return LazyEnum(T, node)
         else:
+            if kind not in KT.cast_variant[T]:
+                if T == 'Expr':
+                    return Agg('Expr', 'None', (Ast('None', node),))     # AstNode::default() placeholder
+                raise EncoderGap('default value of ast type %s' % T)
             vn = KT.cast_variant[T][kind]
         inner = _variant_payload(T, vn, node)
         return Agg(T, vn, (inner,))
@@ -274,7 +293,9 @@ def node_cast(m, a, ci):
     node = _node(m, a[0])
     T = head_ident(ci.generics[-1]) if ci.generics else head_ident(generic_args(ci.dest_ty)[0])
     if T == 'T':
-        raise EncoderGap('generic cast::<T> needs monomorphic caller')
+        T = m.generic_lookup('T')
+        if T is None:
+            raise EncoderGap('generic cast::<T> needs monomorphic caller')
     s = KT.cast_set(T)
     if m.ctx.branch(kind_in(node.kind, s)):
         return some(make_cast(m, node, T))
@@ -562,3 +583,139 @@ def raw_block(m, a, ci):
         if c.kind == rt:
             has_nl = b_or(has_nl, *[b_or(*[i_eq(ch, k, 32) for k in TYPST_NEWLINES]) for ch in c.text.chars])
     return b_and(long_delim, has_nl)
+
+
+# -- operators -----------------------------------------------------------------------------------------
+
+def _op_val(m, enum, variant):
+    return CEnum(enum, norm(m.adts.variant_discr(enum, variant), 64), 64)
+
+
+def _op_name(m, enum, v):
+    v = m.load(v) if isinstance(v, Ref) else v
+    d = simp(v.disc)
+    if is_sym(d):
+        raise EncoderGap('symbolic %s' % enum)
+    return m.adts.variant_by_discr(enum, to_signed(d, 64) if d >> 63 else d)[0]
+
+
+def _concrete_kind(c):
+    if is_sym(c.kind):
+        raise EncoderGap('operator accessor over a child with symbolic kind')
+    return c.kind
+
+
+@reg('Binary::op')
+def binary_op(m, a, ci):
+    n = _ast_node(m, a[0])
+    seen_not = False
+    for c in n.children:
+        k = _concrete_kind(c)
+        if k == KT.k('Not'):
+            seen_not = True
+            continue
+        if k == KT.k('In') and seen_not:
+            return _op_val(m, 'BinOp', 'NotIn')
+        if k in KT.binop_of_kind:
+            return _op_val(m, 'BinOp', KT.binop_of_kind[k])
+    return _op_val(m, 'BinOp', 'Add')
+
+
+@reg('Unary::op')
+def unary_op(m, a, ci):
+    n = _ast_node(m, a[0])
+    for c in n.children:
+        k = _concrete_kind(c)
+        if k in KT.unop_of_kind:
+            return _op_val(m, 'UnOp', KT.unop_of_kind[k])
+    return _op_val(m, 'UnOp', 'Pos')
+
+
+@reg('BinOp::from_kind')
+def binop_from_kind(m, a, ci):
+    k = a[0].disc
+    k = simp(k)
+    if is_sym(k):
+        raise EncoderGap('BinOp::from_kind of a symbolic kind')
+    if k in KT.binop_of_kind:
+        return some(_op_val(m, 'BinOp', KT.binop_of_kind[k]))
+    return NONE
+
+
+@reg('UnOp::from_kind')
+def unop_from_kind(m, a, ci):
+    k = simp(a[0].disc)
+    if is_sym(k):
+        raise EncoderGap('UnOp::from_kind of a symbolic kind')
+    if k in KT.unop_of_kind:
+        return some(_op_val(m, 'UnOp', KT.unop_of_kind[k]))
+    return NONE
+
+
+@reg('BinOp::precedence')
+def binop_precedence(m, a, ci):
+    return KT.binops[_op_name(m, 'BinOp', a[0])][0]
+
+
+@reg('BinOp::as_str')
+def binop_as_str(m, a, ci):
+    return Str.lit(KT.binops[_op_name(m, 'BinOp', a[0])][1])
+
+
+@reg('UnOp::precedence')
+def unop_precedence(m, a, ci):
+    return KT.unops[_op_name(m, 'UnOp', a[0])][0]
+
+
+@reg('UnOp::as_str')
+def unop_as_str(m, a, ci):
+    return Str.lit(KT.unops[_op_name(m, 'UnOp', a[0])][1])
+
+
+@reg('BinOp.PartialEq::eq', 'UnOp.PartialEq::eq', 'BinOp.PartialEq::ne', 'UnOp.PartialEq::ne')
+def op_eq(m, a, ci):
+    x = m.load(a[0]) if isinstance(a[0], Ref) else a[0]
+    y = m.load(a[1]) if isinstance(a[1], Ref) else a[1]
+    r = i_eq(x.disc, y.disc, 64)
+    return b_not(r) if ci.method == 'ne' else r
+
+
+@reg('Expr::is_literal')
+def expr_is_literal(m, a, ci):
+    v = a[0]
+    if isinstance(v, LazyEnum):
+        names = {'None', 'Auto', 'Bool', 'Int', 'Float', 'Numeric', 'Str'}
+        return kind_in(v.node.kind, {k for k, vn in KT.cast_variant['Expr'].items() if vn in names})
+    return v.variant in ('None', 'Auto', 'Bool', 'Int', 'Float', 'Numeric', 'Str')
+
+
+@reg('Closure::name')
+def closure_name(m, a, ci):
+    n = _ast_node(m, a[0])
+    if n.children and not is_sym(n.children[0].kind) and n.children[0].kind == KT.k('Ident'):
+        return some(Ast('Ident', n.children[0]))
+    return NONE
+
+
+STD.table['Closure::params'] = _acc_first('Params')
+STD.table['Closure::body'] = _acc_last('Expr')
+
+
+@reg('Ref::target')
+def ref_target(m, a, ci):
+    n = _ast_node(m, a[0])
+    for c in n.children:
+        if not is_sym(c.kind) and c.kind == KT.k('RefMarker'):
+            t = c.text
+            i = 0
+            while i < len(t) and t.chars[i] == ord('@'):
+                i += 1
+            return t.sub(i, len(t))
+    return Str(())
+
+
+@reg('Ref::supplement')
+def ref_supplement(m, a, ci):
+    n = _ast_node(m, a[0])
+    c = _last_cast(n, 'ContentBlock')
+    return some(Ast('ContentBlock', c)) if c is not None else NONE
